@@ -277,9 +277,10 @@ def rot_specs(tier):
     for s in base:
         for inc in ('absent', False):
             out.append(_decor(s, inc))
-    pats = [('absent', 'absent', 'inherit'), (False, 'absent', 'inherit')]
+    # the last pattern gives the compound its own meta/visual/include (different from its first operand's)
+    pats = [('absent', 'absent', 'inherit'), (False, 'absent', 'inherit'), ('absent', 'absent', False)]
     if big:
-        pats += [('absent', False, 'inherit'), ('absent', 'absent', False)]
+        pats += [('absent', False, 'inherit'), (False, 'absent', True)]
     out += _compound_specs(tier, ROT_CENTRES, pats)
     return out
 
